@@ -1,5 +1,5 @@
 (* C08 typed model: proofs *)
-From Coq Require Import ZArith List Bool Lia.
+From Coq Require Import ZArith List Bool Lia Sorted.
 From EP Require Import C15.Keys C15.KeysProofs C08.Typed.
 Import ListNotations.
 Open Scope Z_scope.
@@ -122,29 +122,32 @@ Proof.
 Qed.
 Lemma pick_n_fin : forall mx a b, nfin a = true -> nfin b = true -> nfin (pick_n mx a b) = true.
 Proof. intros mx a b A B. unfold pick_n. destruct mx; [destruct (nval_lt a b)|destruct (nval_lt b a)]; auto. Qed.
-Lemma fold_min_spec : forall r v, nfin v = true -> forallb nfin r = true ->
-  let m := fold_left (pick_n false) r v in
-  nfin m = true /\ In m (v :: r) /\ forall x, In x (v :: r) -> nle m x = true.
+Lemma pick_min_le : forall v y, nfin v = true -> nfin y = true ->
+  nle (pick_n false v y) v = true /\ nle (pick_n false v y) y = true /\ (pick_n false v y = v \/ pick_n false v y = y).
 Proof.
-  induction r as [|y r IH]; intros v V R; cbn in *.
-  - split; [exact V|]. split; [left; reflexivity|]. intros x [<-|[]]. apply nle_refl. exact V.
-  - apply andb_true_iff in R. destruct R as (Y & R).
-    assert (P : nfin (pick_n false v y) = true) by (apply pick_n_fin; auto).
-    destruct (IH (pick_n false v y) P R) as (M1 & M2 & M3). split; [exact M1|]. split.
+  intros [n1 d1| | |] [n2 d2| | |] V Y; try discriminate. unfold pick_n, nle, nval_lt.
+  destruct (n2 * Z.pos d1 <? n1 * Z.pos d2) eqn:E.
+  - apply Z.ltb_lt in E. rewrite !negb_true_iff, !Z.ltb_ge. split; [lia|]. split; [lia|right; reflexivity].
+  - apply Z.ltb_ge in E. rewrite !negb_true_iff, !Z.ltb_ge. split; [lia|]. split; [lia|left; reflexivity].
+Qed.
+Lemma fold_min_spec : forall r v, nfin v = true -> forallb nfin r = true ->
+  nfin (fold_left (pick_n false) r v) = true /\ In (fold_left (pick_n false) r v) (v :: r) /\
+  forall x, In x (v :: r) -> nle (fold_left (pick_n false) r v) x = true.
+Proof.
+  induction r as [|y r IH]; intros v V R.
+  - cbn [fold_left]. split; [exact V|]. split; [left; reflexivity|]. intros x [<-|[]]. apply nle_refl. exact V.
+  - cbn [fold_left]. cbn [forallb] in R. apply andb_true_iff in R. destruct R as (Y & R).
+    destruct (pick_min_le v y V Y) as (P1 & P2 & P3).
+    assert (P : nfin (pick_n false v y) = true) by (destruct P3 as [->| ->]; assumption).
+    destruct (IH (pick_n false v y) P R) as (M1 & M2 & M3).
+    split; [exact M1|]. split.
     + destruct M2 as [M2|M2]; [|right; right; exact M2].
-      rewrite <- M2. unfold pick_n. destruct (nval_lt y v); [right; left; reflexivity|left; reflexivity].
+      rewrite <- M2. destruct P3 as [->| ->]; [left; reflexivity|right; left; reflexivity].
     + intros x Hx.
-      assert (Pv : nle (pick_n false v y) v = true /\ nle (pick_n false v y) y = true).
-      { unfold pick_n. destruct (nval_lt y v) eqn:E.
-        - split; [unfold nle|apply nle_refl; exact Y].
-          apply negb_true_iff. destruct v as [n1 d1| | |], y as [n2 d2| | |]; try discriminate.
-          unfold nval_lt in *. apply Z.ltb_lt in E. apply Z.ltb_ge. lia.
-        - split; [apply nle_refl; exact V|]. unfold nle. rewrite E. reflexivity. }
       assert (M0 := M3 (pick_n false v y) (or_introl eq_refl)).
-      assert (Fm : nfin (fold_left (pick_n false) r (pick_n false v y)) = true) by exact M1.
       destruct Hx as [<-|[<-|Hx]].
-      * apply (nle_trans _ (pick_n false v y) v); auto. tauto.
-      * apply (nle_trans _ (pick_n false v y) y); auto. tauto.
+      * apply (nle_trans _ (pick_n false v y) v); auto.
+      * apply (nle_trans _ (pick_n false v y) y); auto.
       * apply M3. right. exact Hx.
 Qed.
 
